@@ -94,7 +94,7 @@ fn random_run<P: Pad>(seed: u64, run: u64, ops: usize, ns: u32, np: u32, nw: u32
             director::with_random(|r| {
                 use rand::Rng;
                 r.cb_budget = 4;
-                if r.queue.is_empty() && step % 97 == 3 && r.rng.gen_bool(0.5) {
+                if r.queue.is_empty() && step % 61 == 3 && r.rng.gen_bool(0.7) {
                     director::gen_scenario(r, w);
                 }
                 if r.queue.is_empty() && world::LAST_PANICKED.with(|c| c.replace(false)) && r.rng.gen_bool(0.6) {
